@@ -73,6 +73,8 @@ THEOREMS = [
     "C03_flip_nohb_table",
     "C03_water_nohb_table",
     "C03_water_names_refuted",
+    "C03_residue_init_nodup",
+    "C03_residue_init_layers",
     "C03_layers_agree",
     "C03_layer_keyerror",
     "C03_repair_add_complete",
@@ -125,6 +127,79 @@ def op_term(o):
 def ops_term(ops):
     return L(op_term(o) for o in ops)
 
+
+
+# --------------------------------------------------------------------------
+# correspondence 0: the residue constructors (dedupe after the alias rename)
+
+
+def _alt_table(resname):
+    from harness import builder as B
+
+    d = B.definitions().map.get(resname)
+    return dict(d.altnames) if d is not None else {}
+
+
+def constructor_cases(ctx, n):
+    """Record lists with alias spellings, alt-loc copies, alias + canonical, two aliases of one
+    atom, repeated records - for amino acids, nucleotides and water - through the real
+    reader + Biomolecule (create_residue -> Amino/Nucleic/WAT.__init__)."""
+    from dataclasses import replace
+
+    from harness import builder as B
+
+    rng = ctx.rng
+    pep = B.build_peptide(["GLY", "ILE", "GLY", "THR", "GLY", "ASN", "GLY"], chain="A")
+    dna = B.build_strand("ACGT", chain="B")
+    rna = B.build_strand("ACGU", chain="C", rna=True)
+    wat = B.waters(2, around=pep + dna + rna, chain="W", hydrogens=True)
+    base = pep + dna + rna + wat
+    groups = B.residues_of(base)
+    cases = []
+    for k in range(n):
+        new = []
+        picked = []
+        for g in groups:
+            rn = g[0].resname
+            alt = _alt_table(rn if rn not in ("A", "C", "G", "U") else "R" + rn)
+            inv = {}
+            for a_, c_ in alt.items():
+                if len(a_) <= 4:
+                    inv.setdefault(c_, []).append(a_)
+            recs = []
+            for a in g:
+                r = rng.random()
+                spell = [a.name] + inv.get(a.name, [])
+                if r < 0.70 or rn == "GLY":
+                    recs.append(a)
+                elif r < 0.80:  # alias spelling only
+                    recs.append(replace(a, name=rng.choice(spell)))
+                elif r < 0.90:  # two alt-loc copies under (possibly different) spellings
+                    recs.append(replace(a, name=rng.choice(spell), altloc="A"))
+                    recs.append(replace(a.at(a.xyz + 0.3), name=rng.choice(spell), altloc="B"))
+                else:  # repeated record later in the residue
+                    recs.append(a)
+                    recs.append(replace(a.at(a.xyz + 0.2), name=rng.choice(spell)))
+            if rng.random() < 0.3:
+                rng.shuffle(recs)
+            new += recs
+            picked.append((g[0].chain, g[0].resseq, rn, [x.name for x in recs]))
+        text = B.to_pdb(new, strict=False)
+        try:
+            bio = B.setup_biomolecule(text, termini=False)["biomolecule"]
+        except Exception as e:  # noqa: BLE001
+            ctx.count("constructor-case-raised:" + type(e).__name__)
+            continue
+        byk = {(r.chain_id, r.res_seq): r for r in bio.residues}
+        for ch, rs, rn, names in picked:
+            res = byk.get((ch, rs))
+            if res is None or len(names) == len(set(names)) and not (set(names) & set(_alt_table(res.name))):
+                continue
+            alt = _alt_table(res.name)
+            real = " ".join(a.name for a in res.atoms)
+            term = f"show_names (residue_init {L('(' + S(o) + ', ' + S(c) + ')' for o, c in alt.items() if o in names)} {L(map(S, names))})"
+            cases.append((term, real, {"what": "residue_init", "residue": f"{rn} {ch} {rs}", "records": names, "pdb": text}))
+    return cases
 
 # --------------------------------------------------------------------------
 # correspondence 1: Residue operations vs layer 1 of the model
@@ -286,6 +361,28 @@ def build_structures(ctx):
     miss = [r for r in pep if not (r.resseq == 4 and r.name in ("CE1", "CZ")) and not (r.resseq == 3 and r.name == "ND2")]
     out.append(("missing-heavy", miss, {"missing": True}))
     out.append(("extra+missing", with_extra(miss), {"extra": [("A", 2, "XX1"), ("A", 2, "HX9")], "missing": True}))
+    # 6b. alias spellings and alt-loc copies (ILE CD twice; CD + CD1; C5* twice; O4* + O4'; C5M twice)
+    pal = B.build_peptide(["ALA", "ILE", "SER", "ILE", "GLY"], chain="A")
+    al = []
+    for a in pal:
+        if a.resname == "ILE" and a.name == "CD1" and a.resseq == 2:
+            al += [replace(a, name="CD", altloc="A"), replace(a.at(a.xyz + 0.25), name="CD", altloc="B")]
+        elif a.resname == "ILE" and a.name == "CD1" and a.resseq == 4:
+            al += [a, replace(a.at(a.xyz + 0.25), name="CD")]
+        else:
+            al.append(a)
+    out.append(("alias-altloc-pep", al, {"alias": True}))
+    sal = []
+    for a in B.build_strand("ATGT", chain="B"):
+        if a.name == "C5'" and a.resseq == 2:
+            sal += [replace(a, name="C5*", altloc="A"), replace(a.at(a.xyz + 0.25), name="C5*", altloc="B")]
+        elif a.name == "O4'" and a.resseq == 3:
+            sal += [replace(a, name="O4*"), replace(a.at(a.xyz + 0.25), name="O4'")]
+        elif a.name == "C7" and a.resseq == 4:
+            sal += [replace(a, name="C5M", altloc="A"), replace(a.at(a.xyz + 0.25), name="C5M", altloc="B")]
+        else:
+            sal.append(a)
+    out.append(("alias-altloc-dna", sal, {"alias": True}))
     # 7. random side-chain deletions (whole side chains too) on a 20-residue peptide, one unknown atom
     for k in range(3):
         seq = aas[:]
@@ -787,8 +884,7 @@ def e2e_terms(atoms, r, opts, ff):
         if key not in inp:
             continue
         ns = inp[key]
-        if len(set(ns)) != len(ns):
-            continue
+        alt0 = {o: c for o, c in _alt_table(res.name if res.name != "WAT" else "WAT").items() if o in ns}
         final = [a.name for a in res.atoms]
         patches = list(getattr(res, "patches", []))
         ps1, ps2 = [], []
@@ -827,7 +923,8 @@ def e2e_terms(atoms, r, opts, ff):
             near = L(f"({S(a)}, {L(map(S, rr['near'].get(a, [])))})" for a in miss)
             feas = f"(feas_tab {near} {'true' if rr['pn'] else 'false'} {'true' if rr['pc'] else 'false'})"
         term = (f"show_pres (pipeline_names {L(map(S, ref))} {feas} (fun _ _ => true) {ent} {mode} {L(ps1)} {L(ps2)} "
-                f"{'true' if anym else 'false'} {'true' if ssb else 'false'} {kterm} {lterm} {cl} {his} {L(map(S, ns))})")
+                f"{'true' if anym else 'false'} {'true' if ssb else 'false'} {kterm} {lterm} {cl} {his} "
+                f"(residue_init {L('(' + S(o) + ', ' + S(c) + ')' for o, c in alt0.items())} {L(map(S, ns))}))")
         exp = f"OK final={' '.join(final)} | written={' '.join(exp_w)} | unassigned={' '.join(exp_u)} | logged={' '.join(lg)}"
         out.append((term, exp, {"what": "pipeline_names", "residue": str(res), "input": ns, "patches": patches, "final": final, "written": exp_w}))
     return out
@@ -1184,12 +1281,18 @@ def outer_join(ctx, tag, atoms, meta, r, opts, ff):
     first_of_chain = {}
     for rr in resi:
         first_of_chain.setdefault(rr[0].chain, rr[0].resseq)
+    seen_keys = set()
     for a in atoms:
         if B.is_hydrogen_name(a.name):
             continue
         if a.resname in ("HOH", "WAT") and dropw:
             continue
-        key = (a.chain, str(a.resseq) + a.icode, a.name)
+        rn_ = a.resname if a.resname not in ("A", "C", "G", "U") else "R" + a.resname
+        cname = _alt_table(rn_).get(a.name, a.name)  # the topology's alias table: one atom, several spellings
+        key = (a.chain, str(a.resseq) + a.icode, cname)
+        if key in seen_keys:
+            continue  # another record (alt-loc copy, alias) of an atom already counted
+        seen_keys.add(key)
         n = len(final.get(key, []))
         if n == 1:
             continue
@@ -1299,8 +1402,30 @@ def run(ctx):
     table = {(k, tuple(sorted(b))) for (_n, k, b, _e) in ginfo["instances"]}
     ctx.cov["distribution"]["table-instances"] = len(table)
 
-    # 1. Residue operations
     corr_broken = False
+    # 0. residue constructors
+    ccases = constructor_cases(ctx, 60 if ctx.thorough else 12)
+    seenc = set()
+    ccases = [c for c in ccases if not (c[0] in seenc or seenc.add(c[0]))]
+    try:
+        couts = core.run_cases("C03ctor", HEADER, [c[0] for c in ccases], chunk=80)
+        for (term, real, case), o in zip(ccases, couts):
+            ctx.cov["correspondence_cases"] += 1
+            ctx.count("constructor-corr")
+            if o.strip() != real.strip():
+                ctx.cov["correspondence_disagreements"] += 1
+                corr_broken = True
+                names = real.split()
+                if len(names) != len(set(names)):
+                    dup = sorted({x for x in names if names.count(x) > 1})
+                    ctx.fail({"site": "residue constructor", "atom_class": atom_class(dup[0]), "condition": "duplicate-after-alias-rename"},
+                             f"{case['residue']} built from records {case['records']} holds {dup} twice", dict(case, args=["--clean"], signature="ctor"))
+                if len([b for b in ctx.broken if "residue_init" in b["what"]]) < 3:
+                    ctx.broke("correspondence-broken", "Model.NameProtocol.residue_init vs Amino/Nucleic/WAT.__init__", f"model={o!r} real={real!r}", case)
+    except core.CoqEvalError as e:
+        corr_broken = True
+        ctx.broke("correspondence-broken", "constructor model evaluation failed", str(e)[:1500])
+    # 1. Residue operations
     rcases = residue_op_cases(ctx, 600 if ctx.thorough else 120)
     try:
         res = core.run_cases("C03res", HEADER, [c["term"] for c in rcases], chunk=100)
@@ -1321,6 +1446,12 @@ def run(ctx):
     for i, (tag, atoms, meta) in enumerate(structs):
         for j, opts in enumerate(OPTION_SETS):
             full = tag.startswith(("all20", "variants", "carboxyl", "extra", "fliprich")) or tag in ("missing-heavy",)
+            if tag.startswith("alias-altloc") and opts not in ([], ["--clean"], ["--assign-only"], ["--noopt"]):
+                continue
+            if tag.startswith("alias-altloc") and (not ctx.thorough):
+                ff = ["PARSE", "AMBER", "CHARMM", "TYL06"][j % 4]
+                plan.append((tag, atoms, meta, opts, ff, None))
+                continue
             if tag.startswith(("missing-rand", "missing-backbone", "missing-deferral")) and opts not in ([], ["--nodebump"], ["--noopt"]):
                 continue
             if tag.startswith(("twodonor", "donacc")) and opts not in ([], ["--nodebump"]):
